@@ -785,9 +785,7 @@ class Models(object):
                     return self.to_str(it, a[0])
                 return it.opaque('str of exception with several args', 'str') if it.light else self.repr_compound(it, a)
         if isinstance(v, SBytes):
-            if it.light:
-                return it.opaque('str of symbolic bytes', 'str')
-            raise Unsupported('str() of symbolic bytes')
+            return SStr([Atom('reprbytes', v)])        # str(bytes) is its repr
         raise Unsupported('str(%s)' % type(v).__name__)
 
     def to_repr(self, it, v):
